@@ -114,8 +114,50 @@ def rule_print(ctx, py):
     ctx.floor(R, 5)
 
 
+def rule_samebase(ctx, py):
+    """addunit accepts a second factor of a base kind only if it names the unit already recorded for that kind"""
+    R = "C18.SAMEBASE"
+    from .. import pya
+    f = py.fn("units.parse_units")
+    inner = [n for n in ast.walk(f) if isinstance(n, ast.FunctionDef) and n.name == "addunit"]
+    ctx.need(len(inner) == 1, R, "parse_units: addunit not found")
+    g = inner[0]
+    fld, su = pyfe.params(g)[0], pyfe.params(g)[1]
+    ifs = [n for n in g.body if isinstance(n, ast.If)]
+    ctx.need(len(ifs) == 1 and any(isinstance(x, ast.Raise) for x in ast.walk(ifs[0])), R, "addunit: accept / raise test not found")
+    st = ifs[0]
+    accept_when_true = not any(isinstance(x, ast.Raise) for b in st.body for x in ast.walk(b))
+    # the accepting branch must imply:  no unit recorded yet for this kind, or the recorded unit is `su`
+    none_forms = ("sys[%s] == None" % fld, "sys[%s] is None" % fld, "sys[%s] == ''" % fld)
+    same = "sys[%s] == %s" % (fld, su)
+    ats = sorted(set(pya.expr_atoms(st.test)))
+    ok = False
+    if len(ats) <= 6:
+        import itertools
+        ok = True
+        witnessed = False
+        for vals in itertools.product([False, True], repeat=len(ats)):
+            asg = dict(zip(ats, vals))
+            if pya.bool_eval(st.test, asg) == accept_when_true:
+                witnessed = True
+                if not (any(asg.get(a) for a in none_forms) or asg.get(same)):
+                    ok = False
+        ok = ok and witnessed and any(a in ats for a in none_forms) and same in ats
+    ctx.check(ok, R, st, f._qual, "addunit accepts when %s%s" % ("" if accept_when_true else "not ", pyfe.src(st.test)),
+              "only a first unit of that base kind, or the same unit again", "a second, different unit of one base kind is "
+              "accepted under a condition that is not 'nothing recorded yet or the same unit' (e.g. after the exponent "
+              "cancelled to zero): 'm.m-1.cm' is read as cm instead of being rejected")
+    # the slots start empty so that the first unit can be told from a default
+    init = [n for n in f.body if isinstance(n, ast.Assign) and pyfe.src(n.targets[0]) == "sys"]
+    okin = len(init) == 1 and isinstance(init[0].value, ast.Dict) and all(pyfe.src(v) == "None" for v in init[0].value.values)
+    ctx.check(okin, R, init[0] if init else f, f._qual, "sys slots start as None", "", "the unit slots start with default units: a "
+              "unit differing from the default cannot be recorded as the first one")
+    ctx.floor(R, 2)
+
+
 def run(ctx):
     py = ctx.py
+    rule_samebase(ctx, py)
     rule_alphabet(ctx, py)
     rule_micro(ctx, py)
     n0 = len(ctx.insts)
